@@ -337,6 +337,14 @@ func c03(env *Env, rep *Report) {
 	if gwBin() != "" && env.Shard == 0 {
 		bindCore(rep, "C03")
 		bindModes(rep, "C03")
+		// configurations without token auth: the host policy must be wired for every scheme
+		for _, cfg := range []c05Config{{[]string{"ntlm"}, false}, {[]string{"kerberos"}, false}, {[]string{"local"}, true}} {
+			w := c05Start(cfg, false)
+			w.otherHost(func(kind, detail string) {
+				rep.violate("C03/binary:"+kind+"/"+cfg.String(), detail, map[string]any{"noreplay": true})
+			}, rep)
+			w.stop()
+		}
 	}
 	rep.add("distinct", int64(distinct))
 	rep.add("states", int64(distinct))
